@@ -177,6 +177,92 @@ def legacy_tags(fam):
     return ob
 
 
+T_LET_TAGS = '''
+is_large = amount > 9001
+
+[Cat]
+let: is_large = amount > 9002
+let: ref = 9003
+match: contains("@P1")
+category: C1
+tags: c1
+
+[Large]
+match: is_large
+tags: large
+
+[Ref]
+match: amount > 0 or amount <= 0
+tags: always, {ref}
+'''
+
+
+def tags_real(tname, gseed=0):
+    """Tag union through real conditions: global variables, let bindings (per rule), dynamic {source} tags."""
+    from harness import tmpl
+    if tname == 'let-tags':
+        text = T_LET_TAGS
+    elif tname in tmpl.TEMPLATES:
+        text = tmpl.TEMPLATES[tname]
+    else:
+        text = tmpl.generated(400, gseed)[tname]
+
+    def ob(desc: str, amount: int, s1: str, s2: str, n1: int, n2: int, n3: int, src: str) -> bool:
+        """
+        pre: len(desc) <= 2 and len(s1) <= 1 and len(s2) <= 1 and len(src) <= 1 and all(c in ' aB' for c in src)
+        post: _
+        """
+        reset_tally_caches()
+        values = {'@P1': s1, '@P2': s2, '@P3': 'zz', '@P4': 'kv', 9001: n1, 9002: n2, 9003: n3}
+        eng = tmpl.load(text, values)
+        txn = {'description': desc, 'amount': amount, 'field': {'k': 'kv'}, 'source': src}
+        res = eng.match(dict(txn))
+        _, truth = tmpl.oracle_first_match(eng, dict(txn))
+        exp = set()
+        for r, t in zip(eng.rules, truth):
+            if not t:
+                continue
+            for tag in r.tags:
+                tag = tag.strip()
+                if tag == '{source}':
+                    if src.strip():
+                        exp.add(src.strip().lower())
+                elif tag == '{ref}':
+                    pass            # `ref` is a let binding of ANOTHER rule: not evaluable here => dropped
+                elif tag:
+                    exp.add(tag.lower())
+        return post(res.tags == exp)
+    return ob
+
+
+def two_rows_same_but_field():
+    """Two rows that differ only in a captured column, classified one after the other through normalize_merchant with the
+    cached engine: each gets the tags its own field value dictates."""
+    def ob(k1: str, k2: str) -> bool:
+        """
+        pre: len(k1) <= 1 and len(k2) <= 1 and all(c in ' aB' for c in k1 + k2)
+        post: _
+        """
+        from tally import merchant_utils
+        from tally.merchant_engine import parse_merchants
+        reset_tally_caches()
+        merchant_utils._cached_engine = parse_merchants('[Z]\nmatch: contains("ZELLE")\ncategory: P2P\ntags: {field.k}\n\n[A]\nmatch: field.k == "a"\ntags: isa\n')
+        out = []
+        for k in (k1, k2):
+            r = merchant_utils.normalize_merchant('ZELLE PAY', [], amount=100.0, field={'k': k}, data_source='S')
+            out.append(set(r[3]['tags']) if r[3] else set())
+        exp = []
+        for k in (k1, k2):
+            e = set()
+            if k.strip():
+                e.add(k.strip().lower())
+            if k.lower() == 'a':
+                e.add('isa')
+            exp.append(e)
+        return post(out == exp)
+    return ob
+
+
 def obligations(tier, seed):
     obs = []
     modes = ['first_match', 'most_specific']
@@ -195,6 +281,13 @@ def obligations(tier, seed):
                                           params={'n': n, 'mode': mode, 'pos': pos, 'subs_on_tagonly': sub},
                                           timeout=150 if n < 4 else 600, group='tag-only neutrality',
                                           bounds=f'{n} rules, tag-only rule at position {pos} (with subcategory text: {sub}), mode {mode}; truth vector and all priorities symbolic'))
+    from harness import tmpl as _t
+    names = ['let-tags', 'letshadow', 'letshadow2', 'vars2'] + list(_t.generated(4 if tier == 'quick' else 60, seed))
+    for t in names:
+        obs.append(Obligation(id=f'real-tags-{t}', factory='tags_real', params={'tname': t, 'gseed': seed}, timeout=150 if tier == 'quick' else 900,
+                              group='tag union through real conditions', bounds=f'rule file {t}: description <= 2, constants <= 1, source <= 1 char over (blank,a,B), integer amount and thresholds'))
+    obs.append(Obligation(id='two-rows-same-but-field', factory='two_rows_same_but_field', timeout=150, group='tag union through real conditions',
+                          bounds='two rows differing only in field.k (<= 1 char over blank,a,B), same engine'))
     for fam in range(len(TAG_FAMILIES)):
         obs.append(Obligation(id=f'legacy-f{fam}', factory='legacy_tags', params={'fam': fam}, timeout=150,
                               group='legacy loop', bounds='2-3 CSV tuples (first one tag-only); regex truth vector symbolic (re.search stubbed), field.k (<=2) / source (<=1) over (blank,a,B) symbolic'))
